@@ -24,6 +24,9 @@ def directive(prop, q=(160, 100, 6), t=(1600, 1000, 12), par_exec=0):
         for r in range(rounds):
             G.pipeline(c, nflow // rounds if not c.quick else nflow, npar // rounds if not c.quick else npar, nscen,
                        seed_off=r, par_exec=par_exec)
+        if prop == "C15":
+            import known_probes
+            known_probes.check_known(c, c.build_cff(), ("C15",))
         c.assumptions += ["harness bodies report truthfully (tokens, stamps); the log is mutex-ordered",
                           "programs are drawn from the renderer's feature space (see tools/render.py)"]
         return c.finish("model_checking", RULE)
@@ -36,7 +39,7 @@ REGISTRY = {
     "C10": directive("C10"),
     "C11": directive("C11"),
     "C15": directive("C15"),
-    "C18": directive("C18"),
+    "C18": directive("C18", par_exec=4),
 }
 
 
@@ -86,6 +89,8 @@ def c13(c):
         if len(c.cov["samples"]) < 2:
             p = next(iter(pk.values()))[0]
             c.cov["samples"].append(dict(program={k: v for k, v in p.items() if k != "style"}, style=p["style"]))
+    import known_probes
+    known_probes.check_known(c, cff, ("C13",))
     c.cov["programs"] = n
     c.cov["disagreements_checked"] = n
     c.cov["distinct_nontrivial"] = n
